@@ -26,12 +26,13 @@ const (
 
 // G is one controlled goroutine.
 type G struct {
-	ID    int
-	Name  string
-	Label string
-	State int
-	gate  chan struct{}
-	goid  uint64
+	ID     int
+	Name   string
+	Label  string
+	State  int
+	Parent int // ID of the controlled goroutine that started it with GoChild, else -1 (0 for Go: unused)
+	gate   chan struct{}
+	goid   uint64
 }
 
 // Event is one log entry: kind Y (resumed at yield), L (lock acquired), B (lock busy), C (select
@@ -97,6 +98,41 @@ func (s *Sched) Go(name string, f func()) *G {
 	}()
 	synctest.Wait()
 	return g
+}
+
+// GoChild starts a controlled goroutine from inside a controlled goroutine (the VGoHook of a
+// "go" statement in instrumented code). It does not wait: the step of the parent ends - and the
+// child is parked at its gate - when the scheduler's own synctest.Wait returns.
+func (s *Sched) GoChild(name string, f func()) *G {
+	parent := s.cur()
+	s.mu.Lock()
+	g := &G{ID: len(s.Gs), Name: name, gate: make(chan struct{}), State: AtYield, Label: "start", Parent: -1}
+	if parent != nil {
+		g.Parent = parent.ID
+	}
+	s.Gs = append(s.Gs, g)
+	s.mu.Unlock()
+	go func() {
+		s.mu.Lock()
+		g.goid = goid()
+		s.byID[g.goid] = g
+		s.mu.Unlock()
+		<-g.gate
+		f()
+		s.mu.Lock()
+		g.State = Done
+		s.mu.Unlock()
+		s.log(Event{g.ID, "X", "", 0})
+	}()
+	return g
+}
+
+// CurID returns the ID of the calling controlled goroutine, or -1.
+func (s *Sched) CurID() int {
+	if g := s.cur(); g != nil {
+		return g.ID
+	}
+	return -1
 }
 
 // Yield is the VYieldHook: park before the operation at label.
